@@ -750,7 +750,7 @@ class DeferQueue:
 
     def __init__(self):
         self._writes = []
-        self._pending_offsets = set()
+        self._pending_offsets = {}
         self._next_offset = 0
 
     def request_writes(self, offset, data):
@@ -766,23 +766,40 @@ class DeferQueue:
         each method call.
 
         """
-        if offset < self._next_offset:
+        if data and offset + len(data) <= self._next_offset:
             # This is a request for a write that we've already
             # seen.  This can happen in the event of a retry
             # where if we retry at at offset N/2, we'll requeue
             # offsets 0-N/2 again.
             return []
+        if offset < self._next_offset:
+            # The request starts in data we have already released but
+            # extends past it (a retry can split the stream at different
+            # boundaries than the interrupted attempt did). Only the
+            # unseen tail is kept.
+            data = data[self._next_offset - offset :]
+            offset = self._next_offset
         writes = []
-        if offset in self._pending_offsets:
-            # We've already queued this offset so this request is
-            # a duplicate.  In this case we should ignore
-            # this request and prefer what's already queued.
+        queued = self._pending_offsets.get(offset)
+        if queued is not None and len(data) <= len(queued):
+            # We've already queued this offset with at least as much
+            # data so this request is a duplicate.  In this case we
+            # should ignore this request and prefer what's already queued.
             return []
         heapq.heappush(self._writes, (offset, data))
-        self._pending_offsets.add(offset)
-        while self._writes and self._writes[0][0] == self._next_offset:
-            next_write = heapq.heappop(self._writes)
-            writes.append({'offset': next_write[0], 'data': next_write[1]})
-            self._pending_offsets.remove(next_write[0])
-            self._next_offset += len(next_write[1])
+        self._pending_offsets[offset] = data
+        while self._writes and self._writes[0][0] <= self._next_offset:
+            next_offset, next_data = heapq.heappop(self._writes)
+            if self._pending_offsets.get(next_offset) is next_data:
+                del self._pending_offsets[next_offset]
+            seen = self._next_offset - next_offset
+            if seen:
+                # Queued data can overlap what has been released in the
+                # meantime; drop the part that was already released.
+                if seen >= len(next_data):
+                    continue
+                next_data = next_data[seen:]
+                next_offset = self._next_offset
+            writes.append({'offset': next_offset, 'data': next_data})
+            self._next_offset += len(next_data)
         return writes
